@@ -20,7 +20,8 @@ META = dict(
     bounds=['3 channels, 1-3 added OSNR contributions, update_snr repeated up to 3 times',
             'penalty tables concrete, impairments chosen inside / at the edge / outside the table',
             'auto mode: library of 3 modes (two baud rates, two at the same baud rate with different min_spacing), 2 request spacings',
-            'verdict obligations exclude the +-0.005 dB rounding band as the property states'],
+            'verdict obligations exclude the +-0.005 dB rounding band as the property states',
+            'own-tx-OSNR harness: 3 modes of one baud rate with tx_osnr 40 / 33 / 28 dB, symbolic thresholds, margin 0'],
     assumptions=['floats as reals', 'the line is an environment stub: any per-channel GSNR/OSNR the line could deliver',
                  'tx OSNR and add/drop OSNR concrete in the verdict harness (their single counting with symbolic values is H13a)'],
     stubs=['LineStub (subclass of Fused) sets symbolic signal/ASE/NLI shares and concrete CD/PMD/PDL',
